@@ -67,3 +67,48 @@ package file
 //@   nopanic
 //@   modifies passphrase[:]
 //@   ensures [zeroed] forall k :: 0 <= k && k < len(passphrase) ==> passphrase[k] == 0
+
+// ---- the passphrase is used exactly as the caller gave it, on both sides of the file ---------------
+// saving seals the raw private key under the key derived from the given passphrase and a salt;
+// loading opens with the key derived from the given passphrase and the stored salt (see loadKeys).
+// Any normalisation on one side only (trimming, case folding, ...) makes a saved key unloadable or
+// lets a different passphrase open it.
+//@ func (s *FileSystemSigner) saveKeys(passphrase) (err)
+//@   property C19
+//@   nopanic
+//@   observe ar := call deriveKeyArgon2
+//@   observe sl := call Seal
+//@   modifies passphrase[:]
+//@   ensures [seals-with-passphrase-key] sl ==> ar && ar.count == 1 && sl.count == 1 && sl.arg0.key == KDF(old(val(passphrase)), ar.arg1val)
+//@   ensures [seals-the-private-key] sl ==> s.privateKey != nil && sl.arg3val == skraw(s.privateKey.val)
+//@   ensures [written-only-if-sealed] err == nil ==> sl
+//@   ensures [zeroed-on-success] err == nil ==> forall k :: 0 <= k && k < len(passphrase) ==> passphrase[k] == 0
+
+//@ func LoadFileSystemSigner(keyPath, passphrase) (sg, err)
+//@   property C19
+//@   nopanic
+//@   observe lk := call loadKeys
+//@   modifies passphrase[:]
+//@   ensures [passphrase-as-given] lk ==> lk.count == 1 && lk.arg1val == old(val(passphrase))
+//@   ensures [signer-only-if-loaded] err == nil ==> lk && lk.res0 == nil && sg != nil
+//@   ensures [zeroed] forall k :: 0 <= k && k < len(passphrase) ==> passphrase[k] == 0
+
+//@ func CreateFileSystemSigner(keyPath, passphrase) (sg, err)
+//@   property C19
+//@   nopanic
+//@   observe sk := call saveKeys
+//@   modifies passphrase[:]
+//@   ensures [passphrase-as-given] sk ==> sk.count == 1 && sk.arg1val == old(val(passphrase))
+//@   ensures [signer-only-if-saved] err == nil ==> sk && sk.res0 == nil && sg != nil
+//@   ensures [zeroed] forall k :: 0 <= k && k < len(passphrase) ==> passphrase[k] == 0
+
+//@ func ImportPrivateKey(keyPath, privKeyBytes, passphrase) (err)
+//@   property C19
+//@   nopanic
+//@   observe ar := call deriveKeyArgon2
+//@   observe sl := call Seal
+//@   modifies passphrase[:], privKeyBytes[:]
+//@   ensures [seals-with-passphrase-key] sl ==> ar && ar.count == 1 && sl.count == 1 && sl.arg0.key == KDF(old(val(passphrase)), ar.arg1val)
+//@   ensures [seals-the-given-key] sl ==> sl.arg3val == old(val(privKeyBytes))
+//@   ensures [written-only-if-sealed] err == nil ==> sl
+//@   ensures [zeroed] forall k :: 0 <= k && k < len(passphrase) ==> passphrase[k] == 0
